@@ -64,6 +64,17 @@ Proof. intros m n Hc a0 progs sched x q t cid k vs ab rm. exact (reachable_take_
 Theorem C08_blocked_queue_has_head : forall (m : model) n, cap_of m = Some n -> 0 < n ->
   forall (s : @st A V), room (r_cap (elab m)) (queue s) = false -> exists x q, queue s = x :: q.
 Proof. intros m n Hc Pn s. exact (blocked_queue_has_head (elab m) s n Hc Pn). Qed.
+(* channel = 0 or absent, full strength: the send of a live actor's caller is not merely enabled - it is accepted at the tail,
+   exactly once, and nothing is discarded, whatever the queue already holds *)
+Theorem C08_unbounded_accepts : forall (m : model), cap_of m = None ->
+  forall s t cid k vs ab rm, at_send s t cid k vs ab -> meth (elab m) k = Some rm -> alive s = true ->
+  exists s', step sem sem_slf dv (elab m) s (Cl t) = Some s'
+    /\ queue s' = queue s ++ [Msg cid k (route dv (rm_fields rm) vs)] /\ enq s' = enq s ++ [cid] /\ lost s' = lost s.
+Proof.
+  intros m Hc s t cid k vs ab rm Hat Hm Al.
+  apply (unblocked_enqueues sem sem_slf dv (elab m) s t cid k vs ab rm Hat Hm Al).
+  change (r_cap (elab m)) with (cap_of m). rewrite Hc. reflexivity.
+Qed.
 End C08.
 
 (* generator side: the option decides the capacity as documented; a family member inherits or overrides (0 included) *)
@@ -108,6 +119,7 @@ Print Assumptions C08_blocked_waits.
 Print Assumptions C08_unblocked_enqueues.
 Print Assumptions C08_not_lost.
 Print Assumptions C08_unbounded_never_waits.
+Print Assumptions C08_unbounded_accepts.
 Print Assumptions C08_blocked_until_take.
 Print Assumptions C08_blocked_queue_has_head.
 Print Assumptions C08_literal_value_decides.
